@@ -9,3 +9,5 @@ import MpsProps.Src.SrcLPkgMathPolynomial
 import MpsProps.Src.SrcLPkgMathCurve
 import MpsProps.Src.SrcLInternalMta
 import MpsProps.Src.SrcLInternalOt
+import MpsProps.Src.SrcLInternalRound
+import MpsProps.Src.SrcLPkgParty
